@@ -25,6 +25,7 @@ from tools.gen.csrc import ExtractError
 
 sys.path.insert(0, os.path.join(VERIF, "harness", "C16"))
 import scen  # noqa: E402
+import plumb  # noqa: E402
 
 THEOREMS = ["JanetModel.Props.C16." + t for t in (
     "write_delivers_all_in_order", "sendto_delivers_prefix", "read_at_most_n", "chunk_exact_unless_eof",
@@ -32,13 +33,17 @@ THEOREMS = ["JanetModel.Props.C16." + t for t in (
     "every_op_completes_or_errors", "every_op_completes_or_errors_partial", "second_reader_orphans_first",
     "second_writer_orphans_first",
     # session 3: subprocess exit status (bit-level decoder of proc_get_status)
-    "exit_status_exact", "exit_status_injective", "stop_and_continue_words", "merged_or_unshifted_arm_is_wrong")]
+    "exit_status_exact", "exit_status_injective", "stop_and_continue_words", "merged_or_unshifted_arm_is_wrong",
+    # session 3: descriptor plumbing of os/spawn / os/execute, life cycle of the process value
+    "child_stdio_exact", "std_source_unmoved_loses_descriptor", "wait_once", "first_wait_suspends", "reaped_status_recorded",
+    "close_closes_owned_once")]
 PROC_CURRENT = ["JanetModel.Proc.Current." + t for t in (
-    "current_source_status_decoder", "current_source_waitpid_options", "exit_status_exact_current")]
+    "current_source_status_decoder", "current_source_waitpid_options", "exit_status_exact_current", "current_source_moves_std_sources")]
+PLUMB_CASES = {"quick": 160, "thorough": 2400}
 CURRENT = ["JanetModel.Stream.Current." + t for t in (
     "current_source_guards_read_slot", "current_source_guards_write_slot", "current_source_registers_dgram_for_write",
     "every_op_completes_or_errors_current")]
-WRAP = "-Wl," + ",".join("--wrap=" + s for s in ("read write send recv sendto recvfrom epoll_ctl epoll_wait waitpid pipe close dup fcntl posix_spawn posix_spawnp "
+WRAP = "-Wl," + ",".join("--wrap=" + s for s in ("read write send recv sendto recvfrom epoll_ctl epoll_wait waitpid pipe close dup fcntl fcntl64 posix_spawn posix_spawnp "
                                                 "posix_spawn_file_actions_adddup2 posix_spawn_file_actions_addclose").split())
 QUOTA = {"quick": {"errinj": 30, "stream": 110, "shared-seq": 40, "close": 60, "contend": 24, "dgram": 36, "proc": 30},
          "thorough": {"errinj": 300, "stream": 1500, "shared-seq": 500, "close": 600, "contend": 200, "dgram": 400, "proc": 300}}
@@ -244,6 +249,64 @@ def correspond(ctx, exe, corr):
         if why:
             diffs.append({"scenario": tag, "op": "%s[%s] %s" % (o["name"], o["idx"], o["kind"]), "line": ml[:300], "model": mo[:300], "why": why})
     return sum(1 for x in out if x is not None), diffs, state_mismatch, kinds
+
+
+# ------------------------------------------------------------------------------------------------ descriptor plumbing
+def run_plumb(ctx, exe, drv, batches):
+    """batches of plumbing cases -> (cases run, [(sig, desc, case)], model differences, statistics)"""
+    def one(cases):
+        try:
+            return cases, plumb.run_cases(cases, exe)
+        except Exception as e:   # noqa: BLE001
+            return cases, {"rc": None, "cases": {}, "stderr_tail": "%s: %s" % (type(e).__name__, e), "stdout_tail": ""}
+    with cf.ThreadPoolExecutor(int(os.environ.get("VERIF_JOBS", "14"))) as ex:
+        done = list(ex.map(one, batches))
+    fails, lines, meta = [], [], []
+    stats = {"cases": 0, "os_spawn": 0, "os_execute": 0, "injected_spawn_failure": 0, "injected_pipe_failure": 0, "redirection_kinds": {},
+             "syscalls_compared": 0, "child_tables_compared": 0, "std_descriptor_sources": 0}
+    for cases, res in done:
+        if res.get("rc") != 0:
+            fails.append(("plumb:script", "plumb.janet did not finish: rc=%s %s" % (res.get("rc"), res.get("stderr_tail", "")[-300:]), cases[0] if cases else None))
+        for c in cases:
+            r = res["cases"].get(c["id"], {})
+            stats["cases"] += 1
+            stats["os_spawn" if c["spawn"] else "os_execute"] += 1
+            if c.get("fail") == "spawn":
+                stats["injected_spawn_failure"] += 1
+            elif c.get("fail") is not None:
+                stats["injected_pipe_failure"] += 1
+            for sp in (c["in"], c["out"], c["err"]):
+                k = sp if isinstance(sp, str) else sp[0]
+                stats["redirection_kinds"][k] = stats["redirection_kinds"].get(k, 0) + 1
+                if k in plumb.STD:
+                    stats["std_descriptor_sources"] += 1
+            try:
+                for sig, desc in plumb.oracle(c, r):
+                    fails.append((sig, desc, c))
+                ml, toks = plumb.model_line(c, r)
+            except Exception as e:   # noqa: BLE001
+                fails.append(("plumb:uninterpretable", "case output cannot be interpreted: %s: %s" % (type(e).__name__, e), c))
+                continue
+            if ml:
+                lines.append(ml)
+                meta.append((c, r, toks))
+    diffs = []
+    if drv and lines:
+        try:
+            mo = ctx.model(lines, exe=drv)
+        except Exception as e:   # noqa: BLE001
+            mo = []
+            diffs.append({"why": "model driver failed on the plumbing lines: %s" % e})
+        for (c, r, toks), line, ml in zip(meta, mo, lines):
+            stats["syscalls_compared"] += len(toks)
+            stats["child_tables_compared"] += 1 if "child" in r else 0
+            try:
+                d = plumb.compare_model(c, r, line, toks)
+            except Exception as e:   # noqa: BLE001
+                d = ["comparison failed: %s: %s" % (type(e).__name__, e)]
+            if d:
+                diffs.append({"case": plumb.jdn_case(c), "line": ml[:300], "model": line[:400], "why": d[0][:500]})
+    return stats["cases"], fails, diffs, stats
 
 
 # ------------------------------------------------------------------------------------------------ exit-status decoder
@@ -482,13 +545,18 @@ def run(ctx, only=None):
         quota = {k: v * (4 if quick else 1) for k, v in quota.items()}
     big = 1000000 if quick else 4 * 1024 * 1024
     jobs = []
+    plumb_batches = []
     # corpus first: targeted scenarios and minimised past failures
     cdir = os.path.join(VERIF, "corpus", "C16")
     if os.path.isdir(cdir):
         for fn in sorted(os.listdir(cdir)):
             if fn.endswith(".json"):
                 with open(os.path.join(cdir, fn)) as f:
-                    jobs.append(("corpus", fn, json.load(f)))
+                    j = json.load(f)
+                if j.get("family") == "plumb":
+                    plumb_batches.append(j["cases"])
+                else:
+                    jobs.append(("corpus", fn, j))
     for fam, cnt in quota.items():
         for k in range(cnt):
             jobs.append((fam, k, scen.generate(ctx.rng.fork("%s/%d" % (fam, k)), fam, big)))
@@ -523,19 +591,48 @@ def run(ctx, only=None):
         nexec, efails = exec_checks(ctx, exe)
     except Exception as e:   # noqa: BLE001
         nexec, efails = 0, [("exit-status:harness-failed", "exit status / redirection cases could not be run or interpreted: %s: %s" % (type(e).__name__, e))]
+    # one report per kind of failing case (exit codes / signals / core-dump words ...), naming the first input and the count
+    byclass = {}
     for sig, desc in efails:
+        byclass.setdefault(re.sub(r" -?\d+$", "", sig), []).append((sig, desc))
+    for cls, items in byclass.items():
+        sig, desc = items[0]
         if sig not in reported:
             reported.add(sig)
-            ctx.violation(sig, {"kind": "exec", "failure": desc}, what=desc)
+            more = " (+%d more cases of this kind: %s)" % (len(items) - 1, ", ".join(x[0].rsplit(" ", 1)[-1] for x in items[1:9])) if len(items) > 1 else ""
+            ctx.violation(sig, {"kind": "exec", "failure": desc, "all_failing_cases_of_this_kind": [x[0] for x in items]}, what=desc + more)
+    # descriptor plumbing of os/spawn / os/execute: direct oracle (E) + model correspondence on syscalls and descriptor tables (D)
+    npl = PLUMB_CASES[ctx.tier] * (3 if broken and quick else 1)
+    gen = plumb.generate(ctx.rng.fork("plumb"), npl)
+    plumb_batches += [gen[i:i + 40] for i in range(0, len(gen), 40)]
+    try:
+        nplumb, pfails, pdiffs, pstats = run_plumb(ctx, exe, drv, plumb_batches) if not only or only == "plumb" else (0, [], [], {})
+    except Exception as e:   # noqa: BLE001
+        nplumb, pfails, pdiffs, pstats = 0, [("plumb:harness-failed", "plumbing cases could not be run: %s: %s" % (type(e).__name__, e), None)], [], {}
+    byclass = {}
+    for sig, desc, case in pfails:
+        byclass.setdefault(sig, []).append((desc, case))
+    for sig, items in byclass.items():
+        if sig not in reported:
+            reported.add(sig)
+            desc, case = items[0]
+            ctx.violation(sig, {"kind": "plumb", "cases": [case] if case else [], "failure": desc, "all_failing": [d for d, _ in items[:20]]},
+                          what=desc[:500] + (" (+%d more cases)" % (len(items) - 1) if len(items) > 1 else ""))
+    if pdiffs:
+        broken.append("correspondence os_execute_impl / Proc.Spawn model on %d of %d cases, first: %r" % (len(pdiffs), nplumb, pdiffs[0]))
+        if not ctx.nviol:
+            ctx.broken.append(broken[-1])
     # exit-status decoder: compiled C on all 2^16 words vs regenerated trees (D) and vs the expected reports (E)
     try:
         nstat, sdiffs, sfails, predicted = status_correspond(ctx, drv)
     except Exception as e:   # noqa: BLE001
         nstat, sdiffs, sfails, predicted = 0, [{"why": "status correspondence failed: %s: %s" % (type(e).__name__, e)}], [], []
-    for sig, desc in sfails[:3]:
+    if sfails:
+        sig, desc = sfails[0]
         if sig not in reported:
             reported.add(sig)
-            ctx.violation(sig, {"kind": "status-word", "failure": desc, "predicted_by_model": predicted[:5]}, what=desc)
+            ctx.violation(sig, {"kind": "status-word", "failure": desc, "failing_words": [x[0] for x in sfails], "predicted_by_model": predicted[:5]},
+                          what=desc + (" (+%d more status words)" % (len(sfails) - 1) if len(sfails) > 1 else ""))
     if sdiffs:
         broken.append("correspondence proc_get_status / regenerated expression trees on %d of %d status words, first: %r" % (len(sdiffs), nstat, sdiffs[0]))
         if not ctx.nviol:
@@ -559,10 +656,11 @@ def run(ctx, only=None):
     elif broken:
         ctx.say("broken obligations (failing input reported above): " + "; ".join(broken)[:600])
     cov = {
-        "evaluations": nops + nexec + ncorr + nstat,
-        "distinct_nontrivial": len(results) + nexec,
+        "evaluations": nops + nexec + ncorr + nstat + nplumb,
+        "distinct_nontrivial": len(results) + nexec + nplumb,
         "rule": "one evaluation = one janet-level stream operation judged by the direct oracle, one exit-status / redirection case, or one "
-                "operation whose intercepted syscall sequence was compared with the Lean model; non-trivial = distinct generated scenario",
+                "operation whose intercepted syscall sequence was compared with the Lean model, one os/spawn / os/execute plumbing case, or one "
+                "wait-status word decoded by the compiled proc_get_status and compared; non-trivial = distinct generated scenario / case",
         "samples": [json.dumps({"family": sc["family"], "streams": sc["streams"], "payload_sizes": sc["payload_sizes"][:4], "faults": sc["faults"]})[:300]
                     for _, _, sc, _, _, _ in results[:4]],
         "scenarios": len(results), "scenario_families": fam_count, "stream_kinds": kinds,
@@ -572,6 +670,7 @@ def run(ctx, only=None):
         "intercepted_syscalls": faults["calls"], "faults_injected": {k: faults[k] for k in ("eagain", "short", "eintr", "err")},
         "kernel_own": {"eagain": faults["real_eagain"], "partial_transfers": faults["real_partial"]}, "epoll_rearms": faults["rearm"],
         "correspondence_ops": ncorr, "correspondence_diffs": len(diffs), "model_outcomes": mkinds,
+        "plumbing": pstats, "plumbing_model_diffs": len(pdiffs),
         "status_words_compared": nstat, "status_word_diffs": len(sdiffs),
         "status_decoder_regenerated": (pfacts or {}).get("branches_c"), "waitpid_options": (pfacts or {}).get("waitpidOptions"),
         "source_facts": facts, "broken": broken[:6],
@@ -590,6 +689,13 @@ def run(ctx, only=None):
 def replay(ctx, path):
     with open(path) as f:
         r = json.load(f)
+    if r.get("kind") == "plumb" and r.get("cases"):
+        exe = ctx.build.harness("asan", "c16io", [os.path.join(VERIF, "harness/C16/evwrap.c")], extra_ld=[WRAP])
+        n, pfails, pdiffs, st = run_plumb(ctx, exe, ctx.driver(), [r["cases"]])
+        for sig, desc, case in pfails:
+            ctx.violation(sig, {"kind": "plumb", "cases": [case], "failure": desc}, what=desc[:500])
+        print(json.dumps(pdiffs, indent=1)[:2000])
+        return ctx.finish("proof", {"evaluations": n, "distinct_nontrivial": n, "rule": "replay of plumbing cases", "samples": [plumb.jdn_case(c) for c in r["cases"][:3]]})
     if r.get("kind") != "scenario":
         print(json.dumps(r, indent=1)[:3000])
         return run(ctx)
